@@ -92,6 +92,17 @@ Theorem c17_rejects_missing_estimate : forall c g j,
 Proof. exact reject_missing_estimate. Qed.
 Print Assumptions c17_rejects_missing_estimate.
 
+(* the error kind reported by the checks is truthful: it names a defect the configuration really has
+   (error_claim in ConfigProofs.v spells out what each kind claims) *)
+Theorem c17_error_kind_truthful : forall c e, run_checks c = Err e -> error_claim c e.
+Proof. exact checks_error_truthful. Qed.
+Print Assumptions c17_error_kind_truthful.
+(* construction fails only for an empty command or a duplicate name *)
+Theorem c17_construct_error_kinds : forall raw e,
+  construct raw = Err e -> e = EEmptyCommand \/ exists n, e = EDuplicateName n.
+Proof. exact construct_errors. Qed.
+Print Assumptions c17_construct_error_kinds.
+
 (* ---- before anything is handed to the HPC ------------------------------------------------------------ *)
 (* a file that does not load, or loads to a configuration the checks reject, produces no boundary event
    at all (no config dump, no Cluster.create, no submit_jobs); an accepted one produces all three in order *)
